@@ -28,18 +28,26 @@ X_UNUSED = ('Trees = "none" Slots = {} LinkTargets = {} MaxLinks = 0 MaxNodes = 
             'Ops = {} MaxOps = 0\n')
 
 
-def x_cfg(dev, emit, maxentries, kinds, invs=True):
+def x_cfg(dev, emit, maxentries, kinds, invs=True, only=False):
     return ("CONSTANTS\n Dev = {%s}\n Emit = %s\n Part = \"X\"\n Kinds = {%s}\n Names <- cNames\n Targets <- cTargets\n"
-            " MaxEntries = %d\n %sINIT XInit\nNEXT XNext\nVIEW view\n%sACTION_CONSTRAINT XEmitEdge\n" % (
+            " MaxEntries = %d\n Only <- cOnly\n %sINIT XInit\nNEXT XNext\nVIEW %s\n%sACTION_CONSTRAINT XEmitEdge\n" % (
                 ",".join('"%s"' % d for d in dev), "TRUE" if emit else "FALSE",
-                ",".join('"%s"' % k for k in kinds), maxentries, X_UNUSED,
+                ",".join('"%s"' % k for k in kinds), maxentries, X_UNUSED, "viewH" if only else "view",
                 "INVARIANTS NoEscape WellFormed\n" if invs else ""))
 
 
+def tla_entry(e):
+    return '[kind |-> "%s", name |-> %s, target |-> %s]' % (e["kind"], tla_seq(e["name"]), tla_seq(e["target"]))
+
+
 def x_run(ctx, names, targets, maxentries, dev=(), emit=True, invs=True, kinds=("dir", "file", "sym", "hard"),
-          expect_violation=False, simulate=None, depth=None, tag="MCX"):
-    files = {tag + ".tla": mc_module(tag, {"cNames": tla_seqset(names), "cTargets": tla_seqset(targets)}),
-             tag + ".cfg": x_cfg(dev, emit, maxentries, kinds, invs)}
+          expect_violation=False, simulate=None, depth=None, tag="MCX", only=None):
+    """only: list of archives -> TLC extracts exactly these (hist kept in the view): used to ask what a given
+    deviation predicts for archives observed on the real code"""
+    conly = "{}" if not only else tla_set("<<" + ", ".join(tla_entry(e) for e in a) + ">>" for a in only)
+    files = {tag + ".tla": mc_module(tag, {"cNames": tla_seqset(names), "cTargets": tla_seqset(targets),
+                                           "cOnly": conly}),
+             tag + ".cfg": x_cfg(dev, emit, maxentries, kinds, invs, only=bool(only))}
     return ctx.tlc(tag, tag + ".cfg", files=files, expect_violation=expect_violation, simulate=simulate, depth=depth,
                    name=tag, timeout=1500)
 
@@ -102,3 +110,57 @@ def same_snap(real, pred):
     def norm(s):
         return {p: {k: v for k, v in e.items() if v not in ("", None)} for p, e in s.items()}
     return norm(real) == norm(pred)
+
+
+# --------------------------------------------------------------------------- part A (C26)
+A_UNUSED = "Kinds = {} Names = {} Targets = {} MaxEntries = 0 Only = {}\n"
+OPS = ["upload", "download", "list", "stat", "chmod", "delete", "rdelete"]
+WILD = ["rel", "*"]
+
+
+def a_cfg(dev, emit, maxlinks, maxnodes, ops, maxops=1, invs=True):
+    return ("CONSTANTS\n Dev = {%s}\n Emit = %s\n Part = \"A\"\n %s Trees = \"enum\"\n Slots <- cSlots\n"
+            " LinkTargets <- cLinkTargets\n MaxLinks = %d\n MaxNodes = %d\n Patterns <- cPatterns\n Requests <- cRequests\n"
+            " Ops = {%s}\n MaxOps = %d\nINIT AInit\nNEXT ANext\nVIEW view\n%sACTION_CONSTRAINT AEmitEdge\n" % (
+                ",".join('"%s"' % d for d in dev), "TRUE" if emit else "FALSE", A_UNUSED, maxlinks, maxnodes,
+                ",".join('"%s"' % o for o in ops), maxops, "INVARIANTS AccessInv WellFormed\n" if invs else ""))
+
+
+def a_run(ctx, slots, linktargets, patterns, requests, maxlinks, maxnodes, dev=(), emit=True, invs=True, ops=OPS,
+          expect_violation=False, tag="MCA"):
+    """patterns: list of configurations, each a list of patterns (["abs","r","*"] / ["rel","*"])"""
+    defs = {"cSlots": "<<" + ", ".join(tla_seq(s) for s in slots) + ">>",
+            "cLinkTargets": tla_seqset(linktargets),
+            "cPatterns": tla_set(tla_seqset(cfg) for cfg in patterns),
+            "cRequests": tla_seqset(requests)}
+    files = {tag + ".tla": mc_module(tag, defs), tag + ".cfg": a_cfg(dev, emit, maxlinks, maxnodes, ops, invs=invs)}
+    return ctx.tlc(tag, tag + ".cfg", files=files, expect_violation=expect_violation, name=tag, timeout=1500)
+
+
+def a_key(e):
+    return vf.canon([sorted(vf.canon(n) for n in e["tree"]), sorted(vf.canon(p) for p in e["pats"]),
+                     e["a"]["op"], e["a"]["req"]])
+
+
+def a_cases(edges):
+    seen, cases = set(), []
+    for e in edges:
+        k = a_key(e)
+        if k in seen:
+            continue
+        seen.add(k)
+        c = dict(e)
+        c["id"] = len(cases)
+        cases.append(c)
+    return cases
+
+
+def a_replay(ctx, cases, corrupt=-1, name="access_cases.json"):
+    inp = os.path.join(ctx.work, name)
+    vf.write_json(inp, {"cases": cases, "corrupt": corrupt})
+    r = ctx.gotest("filetransfer", HFILES + ["filetransfer/access_test.go"], "^TestZZVAccessReplay$",
+                   env={"ZZV_IN": inp, "ZZV_WORKERS": 4}, timeout=1500)
+    summ = r.of("summary")
+    if not summ:
+        raise vf.Infra("access replay harness produced no summary:\n" + r.out[-2000:])
+    return summ[0], r.of("mismatch"), r.of("escape")
